@@ -244,6 +244,24 @@ Theorem discr_call_transparent :
 Proof. exact @disc_call_sound. Qed.
 Print Assumptions discr_call_transparent.
 
+(* out= on discretized elements, given as a DiscretizedSpaceElement, a
+   NumpyTensor or an ndarray (__call__, reduce, accumulate, outer; no dtype=):
+   the GIVEN container itself is returned (the element, not its tensor) and the
+   final store is exactly the one NumPy leaves when writing into its buffer. *)
+Theorem discr_out_written_and_returned :
+  forall (T : Type) (cast : dt -> dt -> T -> T) (V : variant) (NP : @npsem T) (st : @store T) (ds : dspace)
+         (m : meth) (ins : list (@operand T)) (kw : kwargs) (rins : list (@rop T))
+         (o : @operand T) (id : nat) (rets : list (@operand T)) (st' : @store T),
+  (forall q rs, NP q = Ok rs -> length rs = 1%nat) ->
+  is_at m = false -> kw_dtype kw = None ->
+  disc_valid_out (Some o) = true -> op_buf o = Some id ->
+  map_opt tens_unwrap (map to_tensor ins) = Some rins ->
+  disc_ufunc cast V NP st ds 1 m ins kw [Some o] = Ok (rets, st') ->
+  rets = [o]
+  /\ raw_ufunc cast NP st m (kw_drop_keepdims kw) rins [Some id] = Ok ([RRBuf id], st').
+Proof. exact @disc_out_sound. Qed.
+Print Assumptions discr_out_written_and_returned.
+
 (* reduce / accumulate / outer / at on discretized elements without out: NumPy
    on the underlying arrays returns too; scalars and None are passed through
    (same store); an array result is a DiscretizedSpaceElement over NumPy's
